@@ -45,6 +45,7 @@ type c09Env struct {
 	ps       partstore.PartStore
 	dedup    dedupindex.Repository
 	gc       gc.PartGarbageCollector
+	moreDirs []string // further part-store directories (multi-store configurations of C08)
 }
 
 const c09Grace = time.Millisecond
@@ -179,16 +180,18 @@ func c09FileOf(ulidStr string) string {
 func (e *c09Env) listDir() (map[string][]byte, []string) {
 	files := map[string][]byte{}
 	var junk []string
-	ents, _ := os.ReadDir(e.partsDir)
-	for _, d := range ents {
-		if d.IsDir() {
-			continue
-		}
-		if c09IsPartName(d.Name()) {
-			b, _ := os.ReadFile(filepath.Join(e.partsDir, d.Name()))
-			files[d.Name()] = b
-		} else {
-			junk = append(junk, d.Name())
+	for _, dir := range append([]string{e.partsDir}, e.moreDirs...) {
+		ents, _ := os.ReadDir(dir)
+		for _, d := range ents {
+			if d.IsDir() {
+				continue
+			}
+			if c09IsPartName(d.Name()) {
+				b, _ := os.ReadFile(filepath.Join(dir, d.Name()))
+				files[d.Name()] = b
+			} else {
+				junk = append(junk, d.Name())
+			}
 		}
 	}
 	return files, junk
